@@ -27,6 +27,7 @@ type Observed struct {
 	CoqObs string // Coq term: the observable
 	Note   any    // human-readable rendering of the observable for replay files
 	Tags   []string
+	Trivial bool  // the observation shows the case is trivial by the property's rule
 }
 
 // Prop is the per-property plug-in.
@@ -177,7 +178,7 @@ func doGen(p Prop, tier string, seed uint64, out, corpus string, shardSize int) 
 		if key == "" {
 			key = string(raw)
 		}
-		if c.Nontrivial && !distinct[key] {
+		if c.Nontrivial && !obs.Trivial && !distinct[key] {
 			distinct[key] = true
 		}
 		recs = append(recs, caseRec{ID: i, Shard: shard, Input: raw, Tags: tags, Note: obs.Note})
